@@ -767,6 +767,17 @@ class Ev:
             other = r if (isinstance(l, Sym) and l.tag[:2] == ("ctor", "None")) else l
             t = Sym("m", "is_none", vkey(other), ())
             return t if op == "Eq" else Sym("not", vkey(t))
+        if op in ("Eq", "Ne") and sum(1 for v in (l, r) if isinstance(v, Sym) and v.tag[:2] == ("ctor", "Some") and len(v.tag) == 3) == 1 and \
+                not all(isinstance(v, Sym) and v.tag[:1] == ("ctor",) for v in (l, r)) and not any(isinstance(v, (Alt, Poly, Rec)) for v in (l, r)) and \
+                not any(isinstance(v, Sym) and v.tag[:1] == ("checked",) for v in (l, r)):
+            # `x == Some(d)` is `match x { Some(v) => v == d, None => false }` (the form of `x.map_or(false, |v| v == d)`)
+            known, other = (l, r) if (isinstance(l, Sym) and l.tag[:2] == ("ctor", "Some")) else (r, l)
+            g = ("arm", ("Some", "_"), vkey(other))
+            inner = eq_sym(Sym("payload", vkey(other), 0), known.tag[2])
+            res = Alt([(g, inner), (("not", g), Sym("bool", "false"))])
+            if op == "Eq":
+                return res
+            return Alt([(g, Sym("not", vkey(inner))), (("not", g), Sym("bool", "true"))])
         if op in ("Eq", "Ne") and all(isinstance(v, Sym) and v.tag[0] == "ctor" for v in (l, r)) and (l.tag[1] != r.tag[1] or (len(l.tag) == 2 and len(r.tag) == 2)) \
                 and not all(v.tag[1] in ("Some", "None") for v in (l, r)):
             # derived equality of enum values whose variants are known: different variants are unequal, the same unit variant is equal
@@ -879,6 +890,30 @@ class Ev:
         for i in range(start, len(stmts)):
             s = stmts[i]
             if s["k"] == "let":
+                if "init" in s and "els" in s:
+                    # `let P = init else { diverge };`  ==  `match init { P => <rest of the block>, _ => diverge }`
+                    scrut = self.collapse(self.eval(s["init"], env, depth))
+                    env2 = dict(env)
+                    r_ = self.match_pat(s["pat"], scrut, env2)
+                    if r_ is True:
+                        env.update(env2)
+                        continue
+                    try:
+                        other = self.eval(s["els"], dict(env), depth)
+                    except Return as ret:
+                        other = EarlyRet(ret.value)
+                    if r_ is False:
+                        return other
+                    self.bind_pat_loose(s["pat"], scrut, env2)
+                    g = arm_guard(s["pat"], scrut)
+                    self.path.append(g)
+                    try:
+                        rest = self._run_block(e, i + 1, env2, depth)
+                    except Return as ret:
+                        rest = EarlyRet(ret.value)
+                    finally:
+                        self.path.pop()
+                    return Alt([(g, rest), (neg_guard(g), other)])
                 if "init" in s:
                     v = self.collapse(self.eval(s["init"], env, depth))
                     if isinstance(v, Alt):
@@ -1157,6 +1192,20 @@ class Ev:
             for s in b["stmts"]:
                 if s["k"] == "let":
                     if "init" in s:
+                        if self.loops and "els" in s and is_continue_block(s["els"]):
+                            # `let Some(v) = o else { continue };` inside a loop body: the rest of the body runs under "the pattern matched"
+                            scrut = self.collapse(self.eval(s["init"], env, depth))
+                            r_ = self.match_pat(s["pat"], scrut, env)
+                            if r_ is None:
+                                self.bind_pat_loose(s["pat"], scrut, env)
+                                self.guards.append(arm_guard(s["pat"], scrut))
+                                pushed += 1
+                                continue
+                            if r_ is True:
+                                continue
+                            raise Unsupported("let-else whose pattern never matches at line %s" % s.get("ln"))
+                        if "els" in s:
+                            raise Unsupported("let-else at line %s" % s.get("ln"))
                         cont = self.continue_guard(s["init"], env, depth) if self.loops else None
                         if cont is not None:
                             # `let v = match o { Some(x) => x, None => continue };` inside a loop body: the rest of the body runs under the arm's guard
@@ -1891,6 +1940,16 @@ class Ev:
             sq = Seq(Sym("once", vkey(recv.tag[2])), lambda idx, v=recv.tag[2]: v)
             sq.once = recv.tag[2]
             return sq
+        if m == "windows" and len(args) == 1 and isinstance(args[0], Poly) and args[0].const_value() is not None and 1 <= args[0].const_value() <= 4:
+            # `s.windows(k)`: the k consecutive elements starting at each position 0..len-(k-1) — for k = 2 the pairs of `s.iter().zip(s.iter().skip(1))`
+            base = recv.seq if isinstance(recv, Coll) else recv
+            if isinstance(base, Sym):
+                el = self.elem_of(base)
+                base = Seq(base, el if callable(el) else (lambda idx, el=el: el)) if el is not None else None
+            if isinstance(base, Seq) and not base.enumerated:
+                kk = int(args[0].const_value())
+                n_ = Poly.atom(("len", len_base(vkey(base.src)), None)) - Poly.const(kk - 1)
+                return Seq(Sym("range", Poly.const(0).key(), n_.key()), lambda idx, f0=base.fn, kk=kk: Tup([f0(idx + Poly.const(j)) for j in range(kk)]))
         if isinstance(recv, Seq) and m == "flatten" and not args and (getattr(recv, "empty", False) or getattr(recv, "once", None) is not None):
             if getattr(recv, "empty", False):
                 return recv
